@@ -1,7 +1,7 @@
 """Registry: obligation id -> spec, property id -> obligations it is decided by."""
-from . import uni, out, io, tok, nl, cfg, sp
+from . import uni, out, io, tok, nl, cfg, sp, nlpp, lst
 
-MODS = (uni, out, io, tok, nl, cfg, sp)
+MODS = (uni, out, io, tok, nl, cfg, sp, nlpp, lst)
 OBLIGATIONS = {}
 for mod in MODS:
     for ob in mod.OBLIGATIONS:
